@@ -46,6 +46,8 @@ _r_star_const_space = re.compile(       # matches "* const "
 _r_int_dotdotdot = re.compile(r"(\b(int|long|short|signed|unsigned|char)\s*)+"
                               r"\.\.\.")
 _r_float_dotdotdot = re.compile(r"\b(double|float)\s*\.\.\.")
+_simple_escapes = {'n': 10, 't': 9, 'r': 13, '0': 0, '\\': 92, "'": 39,
+                   '"': 34, 'a': 7, 'b': 8, 'f': 12, 'v': 11, '?': 63}
 
 def _get_parser():
     global _parser_cache
@@ -896,6 +898,11 @@ class Parser:
                 raise CDefError("invalid constant %r" % (s,))
             elif s[0] == "'" and s[-1] == "'" and (
                     len(s) == 3 or (len(s) == 4 and s[1] == "\\")):
+                if len(s) == 4:
+                    # a simple escape sequence: '\n' is 10, not ord('n')
+                    if s[2] not in _simple_escapes:
+                        raise CDefError("invalid constant %r" % (s,))
+                    return _simple_escapes[s[2]]
                 return ord(s[-2])
             else:
                 raise CDefError("invalid constant %r" % (s,))
